@@ -5,6 +5,7 @@ scenarios (real WaitTimeout: lock state and elapsed time, judged against the pro
 outcome and a generous time bound). Timing is runtime behaviour: partial.
 """
 import collections
+import os
 import json
 
 import common as C
@@ -33,7 +34,19 @@ def run_prim(build, ops):
 
 
 def run_wt(build, ops):
-    real = C.hcorr("wt", "run", input="\n".join(ops) + "\n", timeout=1800)
+    try:
+        real = C.hcorr("wt", "run", input="\n".join(ops) + "\n", timeout=1800)
+    except C.Infra:
+        # a fatal error of the Go runtime (e.g. "sync: unlock of unlocked mutex" when a call returned without the lock) kills the
+        # harness and cannot be recovered in-process: run the scenarios one by one, a crash is that scenario's answer
+        real = []
+        for o in ops:
+            p = C.run([os.path.join(C.BIN, "hcorr"), "wt", "run"], input=o + "\n", timeout=600)
+            if p.returncode == 0 and p.stdout.strip():
+                real.append(p.stdout.splitlines()[0])
+            else:
+                first = next((l for l in p.stderr.splitlines() if l.startswith(("fatal error:", "panic:"))), "exit %d" % p.returncode)
+                real.append("crashed: " + first.strip())
     model = C.driver("wt", ops) if build.driver_ok else None
     return real, model
 
